@@ -29,7 +29,7 @@ VARIABLES
   disk,      \* page -> LSN of the version in the data file
   hdrNext,   \* next LSN according to the header in the data file
   hdrNx,     \* next free page according to the header in the data file
-  hdrDone    \* the running flush has written its header
+  hdrDone    \* the flush in progress / the last flush: "no" header not written yet, "yes" written, "failed" abandoned on a write error
 
 woVars == <<lock, kind, inRec, stamp, stamped, logged, lastStamp, maxLogged, unlogged, disk, hdrNext, hdrNx, hdrDone>>
 
@@ -41,7 +41,7 @@ Put(f, k, v) == [x \in DOMAIN f \cup {k} |-> IF x = k THEN v ELSE f[x]]
 Drop(f, k) == [x \in DOMAIN f \ {k} |-> f[x]]
 
 WoInit == /\ lock = "none" /\ kind = "none" /\ inRec = FALSE /\ stamp = <<>> /\ stamped = {} /\ logged = {}
-          /\ lastStamp = 0 /\ maxLogged = 0 /\ unlogged = {} /\ disk = <<>> /\ hdrNext = 0 /\ hdrNx = 0 /\ hdrDone = FALSE
+          /\ lastStamp = 0 /\ maxLogged = 0 /\ unlogged = {} /\ disk = <<>> /\ hdrNext = 0 /\ hdrNx = 0 /\ hdrDone = "no"
 
 \* the session announces a statement (harness mark; the code has not started yet)
 Begin(k) == /\ lock = "none" /\ kind = "none" /\ ~inRec
@@ -100,18 +100,19 @@ Result(ok) == /\ lock = "none" /\ kind \in DML \cup {"create"}
 \* harness abandons the process right after)
 Aborted == /\ lock = "none" /\ kind \in DML \cup {"create"}
            /\ logged = {}
+           /\ \A p \in DOMAIN disk : disk[p] \notin stamped      \* (it never got as far as a flush of its own)
            /\ kind' = "none" /\ stamped' = {}
            /\ UNCHANGED <<lock, inRec, stamp, logged, lastStamp, maxLogged, unlogged, disk, hdrNext, hdrNx, hdrDone>>
 
 \* flushPages takes the exclusive lock: never while a statement holds the shared one (C13)
 ExclusiveLock == /\ lock = "none"
-                 /\ lock' = "X" /\ hdrDone' = FALSE
+                 /\ lock' = "X" /\ hdrDone' = "no"
                  /\ UNCHANGED <<kind, inRec, stamp, stamped, logged, lastStamp, maxLogged, unlogged, disk, hdrNext, hdrNx>>
 
 \* one page written to the data file: inside a flush, before its header, a page that is dirty, in the version
 \* it was last stamped with; and whatever LSN it carries is in the log already (or was never to be logged)
 Covered(lsn) == lsn = 0 \/ lsn <= maxLogged \/ lsn \in unlogged \/ (kind = "create" /\ lsn \in stamped)
-WritePage(p, lsn) == /\ lock = "X" /\ ~hdrDone
+WritePage(p, lsn) == /\ lock = "X" /\ hdrDone = "no"
                      /\ IF p \in DOMAIN stamp THEN lsn = stamp[p] ELSE lsn = 0
                      /\ Covered(lsn)
                      /\ disk' = Put(disk, p, lsn)
@@ -120,14 +121,21 @@ WritePage(p, lsn) == /\ lock = "X" /\ ~hdrDone
 
 \* the header: after every dirty page of this flush, promising LSNs beyond everything on disk and in the log,
 \* and free pages beyond every page in the file; neither promise ever moves backwards
-WriteHeader(next, nx) == /\ lock = "X" /\ ~hdrDone
+WriteHeader(next, nx) == /\ lock = "X" /\ hdrDone = "no"
                          /\ DOMAIN stamp = {}
                          /\ next > maxLogged /\ next > DiskMax /\ next >= hdrNext
                          /\ nx >= hdrNx /\ \A p \in DOMAIN disk : p < nx
-                         /\ hdrNext' = next /\ hdrNx' = nx /\ hdrDone' = TRUE
+                         /\ hdrNext' = next /\ hdrNx' = nx /\ hdrDone' = "yes"
                          /\ UNCHANGED <<lock, kind, inRec, stamp, stamped, logged, lastStamp, maxLogged, unlogged, disk>>
 
-ExclusiveUnlock == /\ lock = "X" /\ hdrDone
+\* a page write fails (I/O error): the flush is abandoned at once - nothing reached the file for this page, it stays
+\* dirty in the cache (so it can never be evicted), the pages not yet written stay dirty too, no header is written
+WritePageFails(p, lsn) == /\ lock = "X" /\ hdrDone = "no"
+                          /\ p \in DOMAIN stamp /\ lsn = stamp[p]
+                          /\ hdrDone' = "failed"
+                          /\ UNCHANGED <<lock, kind, inRec, stamp, stamped, logged, lastStamp, maxLogged, unlogged, disk, hdrNext, hdrNx>>
+
+ExclusiveUnlock == /\ lock = "X" /\ hdrDone \in {"yes", "failed"}
                    /\ lock' = "none"
                    /\ UNCHANGED <<kind, inRec, stamp, stamped, logged, lastStamp, maxLogged, unlogged, disk, hdrNext, hdrNx, hdrDone>>
 
@@ -155,7 +163,8 @@ Recovered == /\ inRec /\ lock = "none" /\ DOMAIN stamp = {}
 WriteAhead == \A p \in DOMAIN disk : disk[p] = 0 \/ disk[p] <= maxLogged \/ disk[p] \in unlogged
                                       \/ (kind = "create" /\ disk[p] \in stamped)
 \* outside a flush the header covers the file: no page beyond the free pointer, no LSN at or beyond the next LSN
-HeaderCovers == (lock # "X" /\ hdrNext > 0) => (\A p \in DOMAIN disk : p < hdrNx /\ disk[p] < hdrNext)
+\* (after a flush that was abandoned on a write error the file is ahead of its header until the next complete flush)
+HeaderCovers == (lock # "X" /\ hdrNext > 0 /\ hdrDone = "yes") => (\A p \in DOMAIN disk : p < hdrNx /\ disk[p] < hdrNext)
 \* a refused or read-only statement leaves no trace: whatever is dirty was stamped by an accepted statement,
 \* by the statement still running, or by recovery
 NoOrphanStamp == (kind = "read") => stamped = {}
